@@ -1199,7 +1199,9 @@ fn probe(
             x: c.initial_values[qi],
             m: want.v.m,
         };
-        if !keep.close(s.real) {
+        // ("never changes any looked-up value": the same formula in the same order of
+        // operations on the real parts - bit for bit)
+        if !keep.close(s.real) || s.real.to_bits() != c.initial_values[qi].to_bits() {
             return Err(annotate(
                 v(
                     &format!("value-moved|{}", ctx),
